@@ -78,6 +78,18 @@ class VBagDict(Value):
 
 
 class EvalMixin:
+    def check_guard(self, obj, name):
+        """guarded-by discipline of the function under verification: an access to self.<name> in its body (not in
+        inlined callees' specs) is an obligation that the guard holds at that moment"""
+        c = self.root.contract if hasattr(self, 'root') else None
+        if self.spec or c is None or not getattr(c, 'guarded', None) or name not in c.guarded:
+            return
+        me = self.root.scopes[0].get('self')
+        if me is None or not isinstance(me, SRef) or not z3.simplify(me.id).eq(z3.simplify(obj.id)):
+            return
+        from .contracts import prove
+        prove(self, 'guarded.%s' % name, self.spec_bool(c.guarded[name], {'self': me}))
+
     def is_bag(self, obj):
         d = self.world.classes.get(obj.shape.cls) if isinstance(obj, SRef) else None
         return bool(d is not None and d.bag)
@@ -552,6 +564,7 @@ class EvalMixin:
                 return self.path.read_field(obj, name)
             return VBound(obj, name)
         if isinstance(obj, SRef):
+            self.check_guard(obj, name)
             v = self.path.read_field(obj, name)
             if v is not None:
                 return v
